@@ -206,7 +206,30 @@ def run(ctx):
             continue
         dist[mode] = json.load(open(base + ".stats"))
         evaluate(ctx, base + ".in", base + ".impl", acc)
+    large_fits(ctx, acc)
     finish(ctx, acc, dist)
+
+
+def large_fits(ctx, acc):
+    """Larger (about 500 coefficients) 3-d monotonic fits under ASan/UBSan: the active-set solver's factor has to grow
+    (modify_factor -> recompute_factor); a memory error or a decreasing coefficient pair is a violation."""
+    import psvlib
+    exe = ctx.compile("c10_largefit", ["c10_largefit.cpp"], mode="san", defines=["PHOTOSPLINE_INCLUDES_SPGLAM"],
+                      repo_c=psvlib.FITTER_C, libs=psvlib.FITTER_LIBS)
+    if not exe:
+        ctx.tie_ok = False; ctx.broken.append({"kind": "large-fit harness build failed"}); return
+    seeds = [5, 6, 8, 11] + [1000 + 7 * ctx.seed + k for k in range(3 if ctx.tier == "quick" else 20)]
+    rc, out, err = ctx.run([exe] + [str(x) for x in seeds], timeout=600, env={"OMP_NUM_THREADS": "1", "GOTO_NUM_THREADS": "1"})
+    done = [l for l in out.splitlines() if l.startswith("ok ")]
+    acc.setdefault("large_fits", 0); acc["large_fits"] += len(done)
+    ctx.coverage["large_monotonic_fits"] = len(done)
+    for l in done:
+        if not l.endswith("decreasing_pairs=0"):
+            ctx.report("largefit:decreasing", {"line": l, "replay_cmd": "python3 bin/check.py C10 --tier %s" % ctx.tier}, "large monotonic fit returned decreasing coefficients: " + l)
+    if rc != 0:
+        last = [l for l in err.splitlines() if l.startswith("seed ")]
+        ctx.violation({"harness_rc": rc, "failing_seed_line": last[-1] if last else None, "stderr": err[-3000:], "seeds": seeds},
+                      "large monotonic fit %s under ASan/UBSan (%s): %s" % ("hung" if rc == 124 else "aborted", last[-1] if last else "?", err[-600:].replace("\n", " | ")))
 
 
 def replay(ctx, path):
